@@ -66,6 +66,30 @@ func (s signer) SignWithAlgorithm(_ io.Reader, data []byte, algorithm string) (*
 	return s.agent.SignWithFlags(s.cert.Key, data, flags)
 }
 
+// lockedSigner is a signer of the underlying agent. It uses the connection the
+// shim agent shares among all its clients, so it holds the server mutex while signing.
+type lockedSigner struct {
+	ssh.Signer
+	mu *sync.RWMutex
+}
+
+// Sign signs the data with the underlying agent.
+func (l lockedSigner) Sign(rand io.Reader, data []byte) (*ssh.Signature, error) {
+	l.mu.Lock()
+	defer l.mu.Unlock()
+	return l.Signer.Sign(rand, data)
+}
+
+// SignWithAlgorithm signs the data with the underlying agent and the specified algorithm.
+func (l lockedSigner) SignWithAlgorithm(rand io.Reader, data []byte, algorithm string) (*ssh.Signature, error) {
+	l.mu.Lock()
+	defer l.mu.Unlock()
+	if as, ok := l.Signer.(ssh.AlgorithmSigner); ok {
+		return as.SignWithAlgorithm(rand, data, algorithm)
+	}
+	return l.Signer.Sign(rand, data)
+}
+
 type hashcode [sha256.Size]byte
 
 func hash(data []byte) hashcode {
@@ -539,6 +563,8 @@ func (s *Server) Signers() ([]ssh.Signer, error) {
 		return nil, err
 	}
 	for _, signer := range uss {
+		// The signer signs over the connection shared by all clients of the shim agent.
+		signer = lockedSigner{signer, &s.mu}
 		if !s.noUpstreamSSHCACert {
 			signers = append(signers, signer)
 			continue
